@@ -53,6 +53,13 @@ def framing_stream(rng, DEF, g, keys):
             m, _ = g.request(keys)
             m2, _ = g.request(keys)
             segs.append(m[:rng.randrange(1, len(m))] + m2)
+        elif r < 0.72 and keys:
+            # a frame whose handler raises (board clock at the end of the datetime range), then normal traffic
+            bro = [ord(c) for c in DEF.SLAVE_ADDR_BROADCAST]
+            good = [k for k in keys if k not in bro] or keys
+            segs += H.raising_frames(DEF, g, rng.choice(good))
+            m, _ = g.request(keys)
+            segs.append(m)
         else:
             m, _ = g.request(keys)
             segs.append(m)
@@ -137,6 +144,9 @@ def oracle(ctx):
             stream.append(m[:rng.randrange(1, len(m))])
         check_stream(ctx, S, DEF, cfg, stream)
         n += 1
+        if i % 2 == 0:
+            raised = H.check_after_exception(ctx, DEF, cfg, stream[:rng.randrange(0, 4)], rng, 'receiver_')
+            ctx.count('c03_receiver:raising_frame:%s' % raised)
     ctx.oracle_stats['c03_receiver_streams'] = n
     ctx.evaluations += n
 
@@ -146,6 +156,16 @@ def replay(ctx, obj):
         return False
     from simulators.receiver import DEFINITIONS as DEF
     w = obj['witness']
+    if 'after_exception' in obj.get('klass', ''):
+        H.install(H.Recorder(step=1000))
+        system = H.make_system(*w['config'])
+        last = None
+        for seg in w['stream']:
+            last = H.feed(system, seg)
+        if obj['klass'].endswith('not_idle_after_exception'):
+            return system.msg != ''
+        fr = H.decode_answer(DEF, last[-1][1]) if last and last[-1][0] == 2 else None
+        return not fr or len(fr) != 1
     S = H.install(H.Recorder(frozen=H.NOW0))
     n0 = len(ctx.failures)
     check_stream(ctx, S, DEF, tuple(w['config']), w['stream'])
